@@ -671,7 +671,11 @@ func (fs *fsMutable) createNode(lk []byte, parentINode fuseops.InodeID, childNam
 	}
 
 	// lookup
-	fs.lookupTree, _, _ = fs.lookupTree.Insert(lk, lookupEntry{iNode: iNodeID})
+	lookupMode := os.FileMode(fileDefaultMode)
+	if nodeType == fuseutil.DT_Directory {
+		lookupMode = dirDefaultMode
+	}
+	fs.lookupTree, _, _ = fs.lookupTree.Insert(lk, lookupEntry{iNode: iNodeID, mode: lookupMode})
 
 	// Default to common case of create file
 	var linkCount = fileLinkCount
